@@ -96,6 +96,36 @@ class ModeRules:
         res = I.run(self.factory, st, this=P(FAC, ()), args=[C(1 if enc else 0), C(typ)])
         return I, res
 
+    def history(self):
+        """R10.h: what the factory builds for (direction, type) does not depend on what it was asked for before in the same
+        process: after a product of another type, the class of the product for `type` is the class a first call gives."""
+        prog, rec = self.prog, self.rec
+        where = '%s:%s' % (self.factory['file'], self.factory['line'])
+
+        def cls_of(st, p):
+            dyn = st.mem.get((p[1], p[2] + ('$dyn',))) if p[0] == 'p' else None
+            return dyn[1] if dyn else None
+        n = 0
+        for enc in (True, False):
+            fresh = {}
+            for typ in range(5):
+                I, res = self.make(TSX(), enc, typ)
+                fresh[typ] = cls_of(res[0][0], res[0][1]) if len(res) == 1 else None
+            for typ in range(5):
+                other = (typ + 2) % 5
+                ts = TSX()
+                I, res = self.make(ts, enc, other)
+                if len(res) != 1 or fresh[typ] is None:
+                    rec.ob('R10.h', 'R10.h@%s::product-independent-of-history' % self.Fq, None, where, 'factory(%s, %d) did not give one product' % ('enc' if enc else 'dec', other))
+                    continue
+                st1 = res[0][0]
+                res2 = I.run(self.factory, st1, this=P(FAC, ()), args=[C(1 if enc else 0), C(typ)])
+                got = cls_of(res2[0][0], res2[0][1]) if len(res2) == 1 else None
+                n += 1
+                rec.ob('R10.h', 'R10.h@%s::product-independent-of-history' % self.Fq, got == fresh[typ], where,
+                       'factory(%s, %d) after a product of type %d builds %s; as a first call it builds %s' % ('enc' if enc else 'dec', typ, other, got, fresh[typ]))
+        rec.count('R10.h factory call pairs', n, 10)
+
     def step_model(self, ts, log):
         def mk(tag):
             def m(I, st, fr, n, this, args, an):
